@@ -210,6 +210,295 @@ def pick_N(rng, big):
     return rng.randint(151, 400)
 
 
+# ------------------------------------------------------------------------ tables with coincidences (partial regularity)
+# Relative near-miss distances for every coincidence below: exact, then a geometric ladder 1e-16 .. 1e-6 on both sides.
+LADDER = [0.0] * 6 + [sg * 10.0 ** -k for k in range(6, 17) for sg in (1, -1)]
+STRUCT_X = ["first=mean", "last=mean", "ends=mean", "moved-knot", "first=last", "alternating", "two-block", "sym0", "palindrome",
+            "integers", "except-first", "except-last", "geometric2", "first=second"]
+STRUCT_Y = ["parabola", "parabola", "parabola", "line", "zero-sum-dyadic", "zero-sum-float", "antisym", "pairs", "odd", "even", "first=last",
+            "identity", "neg-identity", "index", "const", "all-zero", "alternating", "zero-prefix", "zero-mean-smooth", "generic", "generic"]
+
+
+def struct_xs(rng, N, kind=None, dyadic=None):
+    """grids that are neither uniform nor generic: some statistic of the spacings coincides with some spacing (first = mean, last = mean,
+    first = last, ...), a uniform grid with a few knots moved, symmetric / periodic / integer grids.  dyadic: all abscissae are multiples
+    of 1/8 times a power of two (so that line / parabola data on them are exactly representable); otherwise float spacings, where the
+    coincidence holds to rounding or is detuned by a relative distance from LADDER."""
+    kind = kind or rng.choice(STRUCT_X)
+    dy = (rng.random() < 0.65) if dyadic is None else dyadic
+    for _try in range(10):
+        m = rng.randint(2, 24)
+        unit = (lambda: float(rng.randint(1, 40))) if dy else (lambda: 10 ** rng.uniform(-1, 1))
+        hs = [unit() for _ in range(N - 1)]
+
+        def transfers(lo, hi, cnt):
+            """start from the uniform grid of spacing m and move spacing between the intervals lo..hi-1 (the sum is kept)"""
+            h = [float(m)] * (N - 1)
+            if hi - lo < 2: return h
+            for _ in range(cnt):
+                i, j = rng.sample(range(lo, hi), 2)
+                amt = float(rng.randint(1, max(1, int(h[j]) - 1))) if dy else h[j] * rng.uniform(0.05, 0.9)
+                if h[j] - amt > 0: h[i] += amt; h[j] -= amt
+            return h
+        if kind == "first=mean": hs = transfers(1, N - 1, rng.choice([1, 2, N]))
+        elif kind == "last=mean": hs = transfers(0, N - 2, rng.choice([1, 2, N]))
+        elif kind == "ends=mean": hs = transfers(1, N - 2, rng.choice([1, 2, N]))
+        elif kind == "moved-knot":
+            hs = [float(m)] * (N - 1)
+            for _ in range(rng.choice([1, 1, 2])):
+                k = rng.randrange(1, N - 1)                      # knot k moves: interval k-1 grows, interval k shrinks (or the reverse)
+                amt = float(rng.randint(1, m - 1)) if dy else m * rng.choice([rng.uniform(0.05, 0.9), 10 ** rng.uniform(-9, -2)])
+                a, b = (k - 1, k) if rng.random() < 0.5 else (k, k - 1)
+                if hs[b] - amt > 0: hs[a] += amt; hs[b] -= amt
+        elif kind == "first=last": hs[-1] = hs[0]
+        elif kind == "first=second": hs[1] = hs[0]
+        elif kind == "alternating":
+            a, b = unit(), unit(); hs = [a if i % 2 == 0 else b for i in range(N - 1)]
+        elif kind == "two-block":
+            a, b = unit(), unit(); k = rng.randrange(1, N - 1); hs = [a if i < k else b for i in range(N - 1)]
+        elif kind in ("sym0", "palindrome"):
+            for i in range((N - 1) // 2): hs[N - 2 - i] = hs[i]
+        elif kind == "integers":
+            pts = sorted(rng.sample(range(-3 * N, 3 * N + 1), N)); hs = [float(b - a) for a, b in zip(pts, pts[1:])]
+        elif kind == "except-first": hs = [float(m)] * (N - 1); hs[0] = unit()
+        elif kind == "except-last": hs = [float(m)] * (N - 1); hs[-1] = unit()
+        elif kind == "geometric2":
+            q = rng.choice([2.0, 0.5, 4.0]); hs = [(1.0 if q > 1 else 2.0 ** min(N, 40)) * q ** min(i, 40) for i in range(N - 1)]
+        if dy: hs = [h / 8.0 for h in hs]
+        else:
+            dl = rng.choice(LADDER)                              # detune the coincidence by a relative distance from the ladder
+            if kind in ("first=mean", "ends=mean", "first=last", "first=second", "except-last"): hs[0] *= 1.0 + dl
+            elif kind in ("last=mean", "except-first"): hs[-1] *= 1.0 + dl
+        tot = math.fsum(hs)
+        if kind == "sym0":
+            half = hs[(N - 1) // 2:] if N % 2 == 1 else [hs[(N - 1) // 2] / 2.0] + hs[(N - 1) // 2 + 1:]
+            pos = []; acc = 0.0
+            for h in half: acc += h; pos.append(acc)
+            xs = [-v for v in reversed(pos)] + ([0.0] if N % 2 == 1 else []) + pos
+        else:
+            if dy: x0 = rng.choice([0.0, rng.randint(-64, 64) / 8.0, -round(tot * 4) / 8.0])
+            else: x0 = rng.choice([0.0, -tot * rng.uniform(0.2, 0.8), tot * rng.uniform(-3, 3)])
+            if kind == "integers": x0 = float(pts[0])
+            xs = [x0]
+            for h in hs: xs.append(xs[-1] + h)
+        if dy and rng.random() < 0.3:
+            k2 = 2.0 ** rng.randint(-30, 30); xs = [x * k2 for x in xs]
+        if len(xs) == N and all(b - a > 1e-10 * max(abs(a), abs(b)) for a, b in zip(xs, xs[1:])): return xs, kind, dy
+        kind = rng.choice(STRUCT_X)
+    return [float(i) for i in range(N)], "uniform", True
+
+
+def exact_or_none(fr):
+    """the double equal to the rational fr, or None"""
+    v = float(fr)
+    return v if Fraction(v) == fr else None
+
+
+def struct_ys(rng, xs, kind=None):
+    """ordinates with coincidences: exactly representable line / parabola data (limiter inactive), exactly vanishing sum / mean / prefix
+    sum, antisymmetric, symmetric, first = last, y = x, constant, identically zero ..., each optionally detuned by the ladder"""
+    N = len(xs); kind = kind or rng.choice(STRUCT_Y); L = xs[-1] - xs[0]; c = 0.5 * (xs[0] + xs[-1])
+    dl = rng.choice(LADDER); ys = None
+    if kind in ("parabola", "line"):
+        X = [Fraction(x) for x in xs]
+        # a power of two of the order of L / 4096: in units of it the abscissae of a dyadic grid are short integers, so that
+        # the ordinates below are exactly representable (checked; otherwise generic ordinates are used instead)
+        g = Fraction(2) ** (math.frexp(L)[1] - 12)
+        if kind == "line":
+            mm = Fraction(rng.randint(-40, 40), 8); qq = Fraction(rng.randint(-100, 100), 4)
+            if rng.random() < 0.1: mm = Fraction(0)
+            if rng.random() < 0.2: qq = -mm * (X[rng.randrange(N)] / g)                    # a line through zero at a knot
+            Y = [mm * (x / g) + qq for x in X]
+        else:
+            # vertex at or outside an end of the table: |p_i| <= 2 min |s| at every knot, the limiter stays inactive
+            D = Fraction(L) * rng.choice([0, Fraction(1, 4), 1, 4]); v = X[0] - D if rng.random() < 0.5 else X[-1] + D
+            al = Fraction(rng.choice([-1, 1]) * rng.randint(1, 16), 4); ga = Fraction(rng.randint(-20, 20), 2)
+            if rng.random() < 0.3: ga = Fraction(0)
+            Y = [al * ((x - v) / g) ** 2 + ga for x in X]
+        ys = [exact_or_none(y) for y in Y]
+        if any(y is None for y in ys): ys = None; kind = "generic"
+        elif rng.random() < 0.3:
+            k2 = 2.0 ** rng.randint(-60, 60); ys = [y * k2 for y in ys]
+    if kind == "zero-sum-dyadic":
+        ys = [rng.randint(-64, 64) / 4.0 for _ in xs]; k = rng.randrange(N); ys[k] = 0.0; ys[k] = -sum(ys)
+        k2 = 2.0 ** rng.randint(-60, 60) if rng.random() < 0.4 else 1.0; ys = [y * k2 for y in ys]
+    elif kind == "zero-sum-float":
+        sc = 10 ** rng.uniform(-20, 20) if rng.random() < 0.4 else 1.0
+        ys = [sc * rng.gauss(0, 1) for _ in xs]; acc = 0.0
+        for y in ys[:-1]: acc += y
+        ys[-1] = -acc * (1.0 + dl)                               # the left-to-right double sum vanishes exactly when dl = 0
+    elif kind == "antisym":
+        sc = 10 ** rng.uniform(-20, 20) if rng.random() < 0.4 else 1.0
+        ys = [sc * rng.gauss(0, 1) for _ in xs]
+        for i in range(N // 2): ys[N - 1 - i] = -ys[i] * (1.0 + dl)
+        if N % 2 == 1: ys[N // 2] = 0.0
+    elif kind == "pairs":
+        ys = []
+        while len(ys) < N: v = rng.gauss(0, 1) * 10 ** rng.uniform(-3, 3); ys += [v, -v]
+        ys = ys[:N]
+        if N % 2 == 1: ys[-1] = 0.0
+    elif kind == "odd":
+        gk = rng.choice(["u", "u3", "sin", "uabs"]); w = 10 ** rng.uniform(-3, 3)
+        f = {"u": lambda t: w * t, "u3": lambda t: w * t * t * t, "sin": lambda t: w * math.sin(3 * t / L), "uabs": lambda t: w * t * abs(t)}[gk]
+        ys = [f(x - c) for x in xs]
+    elif kind == "even":
+        gk = rng.choice(["u2", "abs", "cos"]); w = 10 ** rng.uniform(-3, 3)
+        f = {"u2": lambda t: w * t * t, "abs": lambda t: w * abs(t), "cos": lambda t: w * math.cos(3 * t / L)}[gk]
+        ys = [f(x - c) - (f(xs[0] - c) if rng.random() < 0.3 else 0.0) for x in xs]
+    elif kind == "first=last":
+        ys, _m = gen_ys(rng, N, xs); ys[-1] = ys[0] * (1.0 + dl)
+    elif kind == "identity": ys = [x * (1.0 + dl) for x in xs]
+    elif kind == "neg-identity": ys = [-x for x in xs]
+    elif kind == "index": ys = [float(i) for i in range(N)]
+    elif kind == "const": v = rng.choice([1.0, -1.0, rng.gauss(0, 1) * 10 ** rng.uniform(-20, 20)]); ys = [v] * N
+    elif kind == "all-zero": ys = [0.0] * N
+    elif kind == "alternating":
+        v = rng.choice([1.0, rng.gauss(0, 1) * 10 ** rng.uniform(-20, 20)]); ys = [v if i % 2 == 0 else -v * (1.0 + dl) for i in range(N)]
+    elif kind == "zero-prefix":
+        ys, _m = gen_ys(rng, N, xs); k = rng.randrange(1, N); acc = 0.0
+        for y in ys[:k]: acc += y
+        ys[k] = -acc
+    elif kind == "zero-mean-smooth":
+        ys, _m = gen_ys(rng, N, xs, "smooth"); mu = math.fsum(ys) / N; ys = [y - mu for y in ys]
+    if ys is None:
+        ys, m2 = gen_ys(rng, N, xs); kind = "generic-" + m2
+    return ys, kind
+
+
+def pow2_dims(rng):
+    r = rng.random()
+    if r < 0.6: return -1.0, -1.0
+    return rng.choice([-1.0, 2.0 ** rng.randint(-20, 20)]), rng.choice([-1.0, 2.0 ** rng.randint(-20, 20)])
+
+
+def struct_cases_1d(rng, n):
+    cs = []
+    for _ in range(n):
+        N = rng.choice([3, 4, 4, 5, 5, 6, 6, 7, 8, 9, 10, 12, 16, 25, 40, 90])
+        r = rng.random()
+        if r < 0.75: xs, xk, dy = struct_xs(rng, N)
+        else: xs, xk = gen_xs(rng, N); dy = xk == "dyadic"
+        ys, yk = struct_ys(rng, xs, None if r < 0.9 else "generic")
+        xd, fd = pow2_dims(rng)
+        sx = scaled(xd, xs); tags = ("1d", "struct", "x:" + xk, "y:" + yk)
+        w = rng.random()
+        if w < 0.72: cs.append(Case(line1("t1", xd, fd, xs, ys, queries_for(rng, sx)), tags))
+        elif w < 0.86: cs.append(Case(line1("h1", xd, fd, xs, ys, history_queries(rng, sx, 40) + queries_for(rng, sx)), tags + ("history",)))
+        else:
+            rows = [[x, y] for x, y in zip(xs, ys)]; qs = queries_for(rng, sx)
+            cs.append(Case(f"tr {hx(xd)} {hx(fd)} {len(rows)} " + " ".join(flist(r) for r in rows) + f" {len(qs)} " + " ".join(qs), tags + ("rows",)))
+    return cs
+
+
+# 2-D: how the two axes relate to each other
+STRUCT_AX = ["same", "same-ends", "same-ends", "same-ends-dims", "mirror", "one-knot", "same-size", "same-first", "same-last", "diff-size-same-ends", "unrelated"]
+
+
+def inner_points(rng, a, b, n, dy):
+    """n distinct increasing points strictly inside (a, b)"""
+    for _ in range(20):
+        if dy:
+            st = math.ulp(max(abs(a), abs(b))) * 2.0 ** 40; st = min(st, (b - a) / (4 * n + 4)); st = 2.0 ** math.floor(math.log2(st))
+            K = int((b - a) / st)
+            if K - 1 < n: continue
+            pts = [a + k * st for k in sorted(rng.sample(range(1, K), n))]
+        else: pts = sorted(a + (b - a) * rng.uniform(0.02, 0.98) for _k in range(n))
+        v = [a] + pts + [b]
+        if all(q - p > 1e-10 * max(abs(p), abs(q)) for p, q in zip(v, v[1:])): return pts
+    return [a + (b - a) * (k + 1.0) / (n + 1.0) for k in range(n)]
+
+
+def struct_cases_2d(rng, n, malformed=True):
+    cs = []
+    for _ in range(n):
+        N = rng.choice([3, 3, 4, 4, 5, 6, 8, 12]); rel = rng.choice(STRUCT_AX)
+        if rng.random() < 0.6: xs, xk, dy = struct_xs(rng, N)
+        else: xs, xk = gen_xs(rng, N); dy = False
+        xd = yd = fd = -1.0; dl = rng.choice(LADDER)
+        if rel == "same": ys = list(xs)
+        elif rel in ("same-ends", "same-ends-dims"):
+            ys = [xs[0]] + inner_points(rng, xs[0], xs[-1], N - 2, dy) + [xs[-1] * (1.0 + (dl if xs[-1] != 0 and abs(dl) < 1e-7 and not dy else 0.0))]
+            if rel == "same-ends-dims":      # the axes coincide at the ends only after the unit factors are applied (powers of two: exact)
+                k2 = 2.0 ** rng.randint(-12, 12); ys = [y / k2 for y in ys]; yd = k2
+                if rng.random() < 0.5: k3 = 2.0 ** rng.randint(-12, 12); xs = [x / k3 for x in xs]; xd = k3
+        elif rel == "mirror":
+            ys = [xs[0] + (xs[-1] - xs[N - 1 - i]) for i in range(N)]; ys[0] = xs[0]; ys[-1] = xs[-1]
+        elif rel == "one-knot":
+            ys = list(xs); k = rng.randrange(1, N - 1); ys[k] = inner_points(rng, xs[k - 1], xs[k + 1], 1, False)[0]
+        elif rel == "same-size": ys, _k, _d = struct_xs(rng, N)
+        elif rel == "same-first": ys = [xs[0]] + inner_points(rng, xs[0], xs[0] + (xs[-1] - xs[0]) * rng.uniform(0.3, 3), N - 1, False)
+        elif rel == "same-last":
+            lo = xs[-1] - (xs[-1] - xs[0]) * rng.uniform(0.3, 3); ys = inner_points(rng, lo, xs[-1], N - 1, False) + [xs[-1]]
+        elif rel == "diff-size-same-ends":
+            M = rng.choice([k for k in (2, 3, 4, 5, 7, 9) if k != N]); ys = [xs[0]] + inner_points(rng, xs[0], xs[-1], M - 2, dy) + [xs[-1]]
+        else: ys, _k = gen_xs(rng, rng.choice([2, 3, 5, 8]))
+        if not all(b > a for a, b in zip(ys, ys[1:])): ys = list(xs); rel = "same"
+        Nx, Ny = len(xs), len(ys)
+        sx, sy = scaled(xd, xs), scaled(yd, ys)
+        fm = rng.choice(["random", "smooth", "bilinear", "symmetric", "antisymmetric", "zero", "x+y", "plateau", "mixedmag", "zero-sum-rows"])
+        sc = 10 ** rng.uniform(-20, 20) if rng.random() < 0.3 else 1.0
+        if fm == "bilinear":
+            X = [Fraction(v) for v in sx]; Y = [Fraction(v) for v in sy]
+            gx = Fraction(2) ** (math.frexp(max(abs(v) for v in sx) or 1.0)[1] - 10); gy = Fraction(2) ** (math.frexp(max(abs(v) for v in sy) or 1.0)[1] - 10)
+            A, B, Cc, D = [Fraction(rng.randint(-8, 8), 2) for _k in range(4)]
+            f = [[exact_or_none(A + B * (x / gx) + Cc * (y / gy) + D * (x / gx) * (y / gy)) for y in Y] for x in X]
+            if any(v is None for row in f for v in row): fm = "random"
+        if fm == "random": f = [[sc * rng.gauss(0, 1) for _y in ys] for _x in xs]
+        elif fm == "smooth": f = [[sc * math.sin(3 * (x - xs[0]) / (xs[-1] - xs[0]) + 2 * (y - ys[0]) / (ys[-1] - ys[0])) for y in ys] for x in xs]
+        elif fm in ("symmetric", "antisymmetric"):
+            sgn = 1.0 if fm == "symmetric" else -1.0
+            f = [[sc * rng.gauss(0, 1) for _y in ys] for _x in xs]
+            for i in range(Nx):
+                for j in range(Ny):
+                    if i < j and j < Nx and i < Ny: f[j][i] = sgn * f[i][j]
+                    if i == j and sgn < 0: f[i][j] = 0.0
+        elif fm == "zero": f = [[0.0 for _y in ys] for _x in xs]
+        elif fm == "x+y": f = [[x + y for y in sy] for x in sx]
+        elif fm == "plateau": f = [[sc * rng.choice([0.0, 1.0, -1.0]) for _y in ys] for _x in xs]
+        elif fm == "mixedmag": f = [[rng.choice([-1, 1]) * 10 ** rng.uniform(-20, 20) for _y in ys] for _x in xs]
+        elif fm == "zero-sum-rows":
+            f = [[float(rng.randint(-64, 64)) for _y in ys] for _x in xs]
+            for row in f: row[-1] = 0.0; row[-1] = -sum(row)
+        if rng.random() < 0.25: fd = 2.0 ** rng.randint(-20, 20)
+        tags = ("2d", "struct", "axes:" + rel, "f:" + fm) + (("bilinear",) if fm == "bilinear" else ())
+        cells = [(i, j) for i in range(Nx - 1) for j in range(Ny - 1)]
+        w = rng.random()
+        if w < 0.2:      # the data-table constructor (rows x, y, f in x-major order); cells and nodes are expanded into I queries
+            rows = [[xs[i], ys[j], f[i][j]] for i in range(Nx) for j in range(Ny)]; qs = []; bad = malformed and rng.random() < 0.2
+            if bad:
+                v = rng.random()
+                if v < 0.2: rows.pop(rng.randrange(len(rows)))
+                elif v < 0.4: rows = [[xs[i], ys[j], f[i][j]] for j in range(Ny) for i in range(Nx)]       # y-major order
+                elif v < 0.55: rows[rng.randrange(len(rows))] = rng.choice([[1.0, 2.0], [1.0, 2.0, 3.0, 4.0], []])
+                elif v < 0.7: rows.append(list(rng.choice(rows)))
+                elif v < 0.85: rng.shuffle(rows)
+                else: rows.reverse()
+                tags = ("2d", "struct", "table-ctor", "malformed")
+            else: tags += ("table-ctor",)
+            for (i, j) in (cells if len(cells) <= 6 else rng.sample(cells, 6)):
+                m = 2
+                for a in range(m + 1):
+                    for b in range(m + 1):
+                        x = sx[i + 1] if a == m else sx[i] + (sx[i + 1] - sx[i]) * a / m; y = sy[j + 1] if b == m else sy[j] + (sy[j + 1] - sy[j]) * b / m
+                        qs.append(f"I {hx(x)} {hx(y)}")
+            cs.append(Case(f"t3 {hx(xd)} {hx(yd)} {hx(fd)} {len(rows)} " + " ".join(flist(r) for r in rows) + f" {len(qs)} " + " ".join(qs), tags))
+            continue
+        qs = []
+        for (i, j) in (cells if len(cells) <= 9 else rng.sample(cells, 9)):
+            qs.append(f"C {i} {j} {rng.choice([2, 4])}")
+            x = sx[i] + (sx[i + 1] - sx[i]) * rng.random(); y = sy[j] + (sy[j + 1] - sy[j]) * rng.random()
+            if sx[i] <= x <= sx[i + 1] and sy[j] <= y <= sy[j + 1]:
+                qs.append(f"I {hx(x)} {hx(y)}")
+                qs.append(f"I {hx(math.nextafter(sx[i + 1], -math.inf))} {hx(y)}"); qs.append(f"I {hx(sx[i + 1])} {hx(y)}")
+                qs.append(f"I {hx(x)} {hx(math.nextafter(sy[j + 1], -math.inf))}"); qs.append(f"I {hx(x)} {hx(sy[j + 1])}")
+        nodes = [(i, j) for i in range(Nx) for j in range(Ny)]
+        for (i, j) in (nodes if len(nodes) <= 36 else rng.sample(nodes, 36)): qs.append(f"I {hx(sx[i])} {hx(sy[j])}")
+        op = "t2" if w < 0.75 else "h2"
+        if op == "h2": rng.shuffle(qs); tags += ("history",)
+        cs.append(Case(f"{op} {hx(xd)} {hx(yd)} {hx(fd)} {flist(xs)} {flist(ys)} {len(f)} " + " ".join(flist(r) for r in f) + f" {len(qs)} " + " ".join(qs), tags))
+    return cs
+
+
 def generate(rng, tier):
     big = tier != "quick"; cs = []
     ntab = 6000 if big else 900
@@ -316,6 +605,10 @@ def generate(rng, tier):
                 tl = 1e-2 * (sx[1] - sx[0]); x = sx[0] - tl * rng.choice([0.5, 0.99, 1.01, 3.0])
                 qs = qs[:3] + [f"I {hx(x)} {hx(sy[0])}"]
         cs.append(Case(f"t2 {hx(xd)} {hx(yd)} {hx(fd)} {flist(xs)} {flist(ys)} {len(f)} " + " ".join(flist(r) for r in f) + f" {len(qs)} " + " ".join(qs), tags))
+    # tables with coincidences: partially regular grids, ordinates with vanishing sums / symmetries, 2-D axes that share size and/or end
+    # points, the data-table constructor of Interpolation_2D, live 2-D objects
+    cs += struct_cases_1d(rng, 2500 if big else 260)
+    cs += struct_cases_2d(rng, 1500 if big else 150)
     return cs
 
 
@@ -334,6 +627,24 @@ class Rd:
     def table(self): return [self.list() for _ in range(self.integer())]
 
 
+OPS2 = ("t2", "h2", "t3")
+
+
+def grid_of_rows(rows):
+    """specification of the data-table constructor: rows (x, y, f) in x-major order over the sorted distinct x and y values.
+    Returns (xs, ys, f, well_formed)"""
+    if not all(len(r) == 3 for r in rows): return [], [], [], False
+    xs = sorted(set(r[0] for r in rows)); ys = sorted(set(r[1] for r in rows))
+    if len(xs) * len(ys) != len(rows): return [], [], [], False
+    k = 0; f = []
+    for x in xs:
+        f.append([])
+        for y in ys:
+            if rows[k][0] != x or rows[k][1] != y: return [], [], [], False
+            f[-1].append(rows[k][2]); k += 1
+    return xs, ys, f, True
+
+
 def parse_case(line):
     r = Rd(line); op = r.word(); d = {"op": op}
     if op in ("t1", "h1"):
@@ -342,12 +653,15 @@ def parse_case(line):
         d["xd"], d["fd"] = r.num(), r.num(); d["rows"] = r.table()
         d["rows_ok"] = all(len(x) == 2 for x in d["rows"])
         d["xs0"] = [x[0] for x in d["rows"]] if d["rows_ok"] else []; d["ys0"] = [x[1] for x in d["rows"]] if d["rows_ok"] else []
+    elif op == "t3":
+        d["xd"], d["yd"], d["fd"] = r.num(), r.num(), r.num(); rows = r.table(); d["rows"] = rows
+        d["xs0"], d["ys0"], d["f0"], d["rows_ok"] = grid_of_rows(rows)
     else:
         d["xd"], d["yd"], d["fd"] = r.num(), r.num(), r.num(); d["xs0"], d["ys0"] = r.list(), r.list(); d["f0"] = r.table()
     nq = r.integer(); qs = []
     for _ in range(nq):
         q = r.word()
-        if op == "t2":
+        if op in OPS2:
             qs.append(("I", r.num(), r.num()) if q == "I" else ("C", r.integer(), r.integer(), r.integer()))
         elif q in ("I", "L", "K"): qs.append((q, r.num()))
         elif q == "D": qs.append((q, r.integer(), r.num()))
@@ -400,7 +714,7 @@ def compare(c, io, mo, tol):
     try: d = parse_case(c.line)
     except Exception: return False, False, "unparsable case"
     scales = []
-    if d["op"] == "t2":
+    if d["op"] in OPS2:
         xs, ys = scaled(d["xd"], d["xs0"]), scaled(d["yd"], d["ys0"]); f = [scaled(d["fd"], row) for row in d["f0"]]
         mx = max([abs(v) for row in f for v in row] + [0.0])
         for q in d["qs"]: scales += [mx] * nout(q)
@@ -480,7 +794,7 @@ def pred_1d(c, d, vals):
     out = []; xs, ys = scaled(d["xd"], d["xs0"]), scaled(d["fd"], d["ys0"]); N = len(xs)
     h, s = steffen_ref(xs, ys)
     poly = None
-    if any(t in c.tags for t in ("line", "parabola", "N=2", "replay")) and N <= 80:
+    if N <= 100:     # every table is tested (cheap: a generic table fails at its third point)
         poly = exact_poly(xs, ys)
         if poly and poly[0] == "parabola" and not limiter_inactive_exact(xs, ys): poly = None
     def polyval(x):
@@ -581,7 +895,7 @@ def pred_2d(c, d, vals):
     out = []; xs, ys = scaled(d["xd"], d["xs0"]), scaled(d["yd"], d["ys0"])
     f = [scaled(d["fd"], row) for row in d["f0"]]
     bil = None
-    if "bilinear" in c.tags or "replay" in c.tags:
+    if len(xs) * len(ys) <= 400:     # every grid is tested (a generic grid fails at the first node outside the corner cell)
         # exact bilinear fit from the corner cell, verified on every node
         X = [Fraction(v) for v in xs]; Y = [Fraction(v) for v in ys]; F = [[Fraction(v) for v in row] for row in f]
         if len(X) >= 2 and len(Y) >= 2:
@@ -637,7 +951,8 @@ def pred_2d(c, d, vals):
 def expected_exit(d):
     """does the request terminate the process by the documented guards? (independent of the model)"""
     if d["op"] == "tr" and not d["rows_ok"]: return True
-    if d["op"] == "t2":
+    if d["op"] == "t3" and not d["rows_ok"]: return True
+    if d["op"] in OPS2:
         if len(d["f0"]) != len(d["xs0"]) or any(len(r) != len(d["ys0"]) for r in d["f0"]): return True
         if not (len(d["xs0"]) >= 2 and all(b > a for a, b in zip(d["xs0"], d["xs0"][1:]))): return True
         if not (len(d["ys0"]) >= 2 and all(b > a for a, b in zip(d["ys0"], d["ys0"][1:]))): return True
@@ -660,13 +975,13 @@ def predicates(c, io):
         return [] if ee else [(d["op"] + ":exit", "a valid table and query points inside the domain (or its 1 % tolerance) terminated the process")]
     if ee: return [(d["op"] + ":no-exit", "a malformed table or a query point outside the 1 % tolerance was accepted")]
     vals = [int(t) if is_int_tok(t) else (math.nan if t == "nan" else math.inf if t == "inf" else -math.inf if t == "-inf" else float.fromhex(t)) for t in io.split()]
-    return pred_2d(c, d, vals) if d["op"] == "t2" else pred_1d(c, d, vals)
+    return pred_2d(c, d, vals) if d["op"] in OPS2 else pred_1d(c, d, vals)
 
 
 def nontrivial(c, io):
     if io.startswith(("EXIT", "CRASH")): return False
     d = parse_case(c.line)
-    if d["op"] == "t2":
+    if d["op"] in OPS2:
         xs, ys = d["xs0"], d["ys0"]
         nu = lambda v: len(v) >= 3 and any(abs((v[i + 2] - v[i + 1]) - (v[i + 1] - v[i])) > 1e-9 * (v[i + 2] - v[i]) for i in range(len(v) - 2))
         return nu(xs) and nu(ys)
